@@ -183,6 +183,19 @@ class Classifier:
         V_, X = influence(fn, node)
         sub = [n for x in X for n in ast.walk(x)]
         inferred = self.iv(node)
+        # --- `<pattern with refutable sub-patterns> as name`: the sub-patterns' constraints (about elements / attributes /
+        #     values of the subject) are applied to the subject itself when the `as` name is bound
+        for m in ast.walk(fn):
+            if isinstance(m, ast.MatchAs) and m.name in V_ and isinstance(m.pattern, (ast.MatchSequence, ast.MatchMapping, ast.MatchClass)):
+                subs = list(getattr(m.pattern, "patterns", [])) + list(getattr(m.pattern, "kwd_patterns", []))
+                def refutable(p):
+                    if isinstance(p, ast.MatchStar):
+                        return False
+                    if isinstance(p, ast.MatchAs):
+                        return p.pattern is not None and refutable(p.pattern)
+                    return True
+                if any(refutable(p) for p in subs):
+                    return "C01-subpattern-constraint-on-subject"
         # --- tuple + tuple drops the receiver's element type
         for s in sub:
             if isinstance(s, ast.BinOp) and isinstance(s.op, ast.Add):
